@@ -29,3 +29,15 @@ PROPS['C15'] = dict(
     ],
     assumptions=[],
 )
+
+PROPS['C09'] = dict(
+    prop_modules=['Vise.Props.C09'],
+    lean_targets=['Vise.Props.C09'],
+    suites=['cache'],
+    trusted=[
+        "values are (tag,length) stand-ins on the Lean side and runs of one byte on the Go side; only lengths and identity matter to cache.go",
+        "Go map iteration order is irrelevant to every modelled result (frameOf returns the outermost defining frame; keys unique by the invariant); map-derived output is sorted before comparison",
+    ],
+    assumptions=["size(v) + capacity < 2^32 for every stored value (uint32 wrap needs 4 GiB of values; not replayable)",
+                 "limits are uint16 (0..65535), as the API types them"],
+)
